@@ -56,8 +56,9 @@ def tileEnd (b len : Nat) : Option DecErr → Bool
 /-- the value returned by `reset` after `len` bytes with last boundary `b` -/
 def tileReset (b len n : Nat) : Bool := b + n = len
 
-/-- histories with `finalize` / `reset` calls in between: both move the boundary to the current
-position.  Result: boundary and position afterwards. -/
+/-- histories with `finalize` / `reset` calls (and replacements of the decoder by `new` /
+`from_buf`) in between: all of them move the boundary to the current position.
+Result: boundary and position afterwards. -/
 def tileOpStep (b i : Nat) : OpOut → Option (Nat × Nat)
   | .out o =>
     match tileStep b i o with
@@ -65,6 +66,11 @@ def tileOpStep (b i : Nat) : OpOut → Option (Nat × Nat)
     | Option.none => Option.none
   | .fin e => if tileEnd b i e then some (i, i) else Option.none
   | .reset n => if tileReset b i n then some (i, i) else Option.none
+  -- `Decoder::new()` / `Decoder::from_buf(buf)`: the old decoder is dropped together with the
+  -- bytes `b .. i` of its unfinished frame / noise run (nothing is reported for them, there is
+  -- no report to check); the new decoder starts at the current position
+  | .new => some (i, i)
+  | .fromBuf => some (i, i)
 
 def tileOps (b i : Nat) : List OpOut → Option (Nat × Nat)
   | [] => some (b, i)
